@@ -378,8 +378,9 @@ Builtin(C, name, vs, st) ==
             IF n # 3 \/ vs[1].t # "str" \/ vs[2].t # "int" \/ vs[3].t # "int" THEN RV(VVoid, Fault(st, "stuck:type"))
             ELSE IF I64IsNeg(vs[2].i) \/ I64IsNeg(vs[3].i) \/ ~I64IsSmall(vs[2].i) \/ ~I64IsSmall(vs[3].i) THEN RV(VVoid, Fault(st, "unspecified:substring"))
             ELSE LET a == I64ToInt(vs[2].i)  l == I64ToInt(vs[3].i)  L == Len(vs[1].s) IN
-                 \* a start at or beyond the end: "" in compiled code, an error value in the evaluator -> unspecified
-                 IF a >= L /\ ~(a = L /\ l = 0) THEN RV(VVoid, Fault(st, "unspecified:substring"))
+                 \* STDLIB str_substring: "I return an empty string if start is out of bounds".  INTERP_SUBSTRING_OOB_VOID: the
+                 \* evaluator prints `start index out of bounds` and answers the void value instead (eval_string.c)
+                 IF a >= L /\ ~(a = L /\ l = 0) /\ HasDev(C, "INTERP_SUBSTRING_OOB_VOID") THEN RV(VVoid, st)
                  ELSE RV(VStr(IF a >= L THEN "" ELSE SubSeq(vs[1].s, a + 1, IF a + l > L THEN L ELSE a + l)), st)
      [] name = "str_contains" ->
             IF n # 2 \/ vs[1].t # "str" \/ vs[2].t # "str" THEN RV(VVoid, Fault(st, "stuck:type"))
